@@ -803,7 +803,7 @@ def load_corpus():
 
 
 def main():
-    chk = Check("C16", groups=["her"])
+    chk = Check("C16", groups=["her", "replay"])
     chk.build_props()
     from harness import linecov
 
@@ -830,7 +830,7 @@ def main():
                       {"fixed_input": "harness/c16.py share_check()", "traceback": traceback.format_exc()[-2500:]}, found_input=True)
     if bad:
         chk.violation("oracle-relabelled-share-float", f"int(her_ratio * B) != floor(n*B/(n+1)) for (n, B, code, law) = {bad[:5]}", {"mismatches": bad[:50]}, found_input=True)
-    new = 0
+    new, model_only = 0, []
     distinct = set()
     hist = {"strategy": {}, "capacity": {}, "n_envs": {}, "hto": 0, "copy_info": 0, "vecnorm": 0, "observation_points": 0, "sampleable_cells": 0,
             "virtual_samples_enumerated": 0, "pickle_ops": 0, "trunc_ops": 0, "episodes_longer_than_ring": 0, "sample_raises_no_valid": 0, "adds": 0}
@@ -862,16 +862,18 @@ def main():
             if nontrivial(c, im):
                 distinct.add((c["buffer_size"], c["n_envs"], c["strategy"], c["hto"], c["copy_info"], c["n_sampled_goal"]))
             if orc:
+                # a concrete failing input: reported at once (at most 3)
                 chk.violation(orc[0][0], "; ".join(m for _, m in orc[:3]), {"case": c, "problems": orc[:10], "model_disagreements": mod[:5], "traceback": im.get("traceback")}, found_input=True)
                 new += 1
-            elif mod:
-                chk.violation("model-correspondence-" + mod[0][0], "; ".join(m for _, m in mod[:3]),
-                              {"case": c, "problems": mod[:10], "correspondence": "harness/c16.py run_impl (real HerReplayBuffer tables) vs Model.Her.hhrun"}, found_input=False)
-                new += 1
+            elif mod and len(model_only) < 3:
+                model_only.append((c, mod))        # not confirmed by the oracle: reported AFTER the concrete inputs
             if new >= 3:
                 break
         if new >= 3:
             break
+    for c, mod in model_only[:max(0, 3 - new)]:
+        chk.violation("model-correspondence-" + mod[0][0], "; ".join(m for _, m in mod[:3]),
+                      {"case": c, "problems": mod[:10], "correspondence": "harness/c16.py run_impl (real HerReplayBuffer tables) vs Model.Her.hhrun"}, found_input=False)
     chk.coverage["evaluations"] = len(cases)
     chk.coverage["traces_validated_against_impl"] = hist["observation_points"]
     chk.coverage["distinct_nontrivial"] = len(distinct)
@@ -896,7 +898,7 @@ def main():
 def replay(path):
     d = json.load(open(path))
     case = d["replay"]["case"]
-    chk = Check("C16", groups=["her"])
+    chk = Check("C16", groups=["her", "replay"])
     impls, results = run_cases(chk, [case], name="C16_replay")
     orc, mod = results[0]
     print(json.dumps({"oracle": orc[:10], "model_disagreements": mod[:10]}, indent=1))
